@@ -142,7 +142,7 @@ theorem safe_actR1 {s s' : State} {t r : Nat} {p : RPC} (ha : InvA s) (hl : LRI 
     cases h; simp only [rFact] at hf; unfold stepRSeq
     split
     · rename_i hseq
-      have hlt : c < s.core.sent.length := hs.g.b2r (c % s.core.cap) c (Nat.mod_lt _ hcap) hseq
+      have hlt : c < s.core.sent.length := (hs.g.b2r (c % s.core.cap) c (Nat.mod_lt _ hcap) hseq).1
       exact safe_R_same ha hs hpc rfl rfl rfl rfl rfl (by okR_tac) (fun q' e => by cases e; exact ⟨hf.1, hf.2, hlt⟩)
     · exact safe_R_same ha hs hpc rfl rfl rfl rfl rfl (by okR_tac) (fun q' e => by cases e; exact hf)
   case rVal x c =>
